@@ -198,6 +198,11 @@ def chpubOneB (t : Tree) (id : Bytes) (pubParams cPubEnc : Bytes) : Except Err T
   seqE (onB t (.acct id) (fun b => putMasterKeyParams b (some pubParams) none)) fun t =>
   onB t (.acct id) (fun b => putCryptoKeys b (some cPubEnc) none none)
 
+/-- ChangePubPassphrase: every managed keystore in turn, one database transaction (the first error ends it) -/
+def chpubAllB : Tree → List (Bytes × Bytes × Bytes) → Except Err Tree
+  | t, [] => .ok t
+  | t, (id, pubParams, cPubEnc) :: r => seqE (chpubOneB t id pubParams cPubEnc) (fun t => chpubAllB t r)
+
 /-- DeleteKeystore: Clear + DeleteBucket of the account bucket (with its sub-bucket), deleteAccountID -/
 def removeB (t : Tree) (id : Bytes) : Tree :=
   ((t.set (.acct id) []).set (.pub id) []).set .aid (deleteAccountID (t .aid) id)
